@@ -68,6 +68,10 @@ func genC04(e *emitter, r *rng, thorough bool) {
 		ops := []string{fmt.Sprintf("c0:%d", randIdx(r)), "n0", "n1"}
 		e.emit(fmt.Sprintf("master.len%d", l), xkLine("seed:"+hx(seed)+":"+fmt.Sprint(r.intn(len(nets))), ops))
 	}
+	// lengths that alias a valid length modulo 2^8 / 2^16 (a length check done in a narrower type)
+	for _, l := range []int{255, 256, 257, 256 + 15, 256 + 16, 256 + 32, 256 + 64, 256 + 65, 512 + 32, 768 + 16, 65536 + 32} {
+		e.emit(fmt.Sprintf("master.aliaslen%d", l), xkLine("seed:"+hx(r.bytes(l))+":0", []string{"c0:0"}))
+	}
 	// BIP32 test vector seeds
 	tv := []string{"000102030405060708090a0b0c0d0e0f",
 		"fffcf9f6f3f0edeae7e4e1dedbd8d5d2cfccc9c6c3c0bdbab7b4b1aeaba8a5a29f9c999693908d8a8784817e7b7875726f6c696663605d5a5754514e4b484542",
@@ -217,6 +221,17 @@ func genC08(e *emitter, r *rng, thorough bool) {
 			x = append(x, r.bytes(l-len(x))...)
 		}
 		e.emit("parse.len", xkLine("str:"+hx([]byte(base58.Encode(x))), nil))
+	}
+	// wrong payload lengths WITH a checksum that is correct for that payload
+	for _, l := range []int{0, 1, 33, 74, 77, 79, 80, 82, 110, 78 + 33, 78 * 2, 300} {
+		var x []byte
+		if l <= 78 {
+			x = append([]byte{}, raw[:l]...)
+		} else {
+			x = append(append([]byte{}, raw[:78]...), r.bytes(l-78)...)
+		}
+		x = append(x, crypto.Sha256d(x)[:4]...)
+		e.emit("parse.len-goodck", xkLine("str:"+hx([]byte(base58.Encode(x))), []string{"c0:1"}))
 	}
 	for bit := 0; bit < 32; bit += 3 {
 		x := append([]byte{}, raw...)
